@@ -15,7 +15,7 @@ from .common import qmap
 PID = "C09"
 FUNCTIONS = ["Scalar._DoOperation number branches / __r*__ operators", "Array._DoOperation number and ndarray branches / __r*__ operators", "_ValueGenerator",
              "barril._util.types_.IsNumber", "Quantity.CreateEmpty", "UnitDatabase.Divide/FloorDivide with the empty quantity", "Array.__array_ufunc__ = None"]
-XS = ["s_m", "s_degC", "s_m2", "s_per_s", "a_list", "a_tuple", "a_np", "a_np_m2", "f_list", "f_np"]
+XS = ["s_restricted", "a_restricted", "s_m", "s_degC", "s_m2", "s_per_s", "a_list", "a_tuple", "a_np", "a_np_m2", "f_list", "f_np"]
 OPS = ["k*x", "x*k", "x/k", "x//k", "x+k", "k+x", "x-k", "k-x", "k/x", "k//x"]
 KS = ["float_edge", "sym", "int", "np.float64", "np.float32", "np.int64", "ndarray", "sym_ndarray", "list"]
 BOUNDS = {
@@ -69,6 +69,9 @@ def _mk(cfg, V):
     def arr(v):
         return SymArray(v) if (v and core.is_sym(v[0])) else numpy.array(v, dtype=float)
 
+    if name in ("s_restricted", "a_restricted"):
+        cat, unit = _restricted()
+        return (Scalar(xs[0], unit, cat), xs[:1]) if name.startswith("s_") else (Array(list(xs), unit, cat), xs)
     if name == "s_m":
         return Scalar(xs[0], "m"), xs[:1]
     if name == "s_degC":
@@ -90,6 +93,43 @@ def _mk(cfg, V):
     if name == "f_np":
         return FixedArray(len(xs), arr(xs), "m"), xs
     raise KeyError(name)
+
+
+_RESTRICTED = []
+
+
+def _restricted():
+    """(category, unit): a unit of the category's quantity type that is NOT in the category's own (UI) valid-unit list"""
+    if not _RESTRICTED:
+        from barril.units import UnitDatabase
+
+        db = UnitDatabase.GetSingleton()
+        for c in sorted(db.IterCategories()):
+            i = db.GetCategoryInfo(c)
+            if i.valid_units:
+                extra = [u for u in db.GetUnits(i.quantity_type) if u not in i.valid_units]
+                if extra and getattr(db.GetInfo(i.quantity_type, extra[0]).tobase, "__a__", 0.0) == 0.0:
+                    _RESTRICTED.append((c, extra[0]))
+                    break
+    return _RESTRICTED[0]
+
+
+def _sibling_prelude(x):
+    """history: the same kinds of operations on an object with the same unit under ANOTHER category of the quantity type"""
+    from barril.units import UnitDatabase
+
+    q = x.GetQuantity()
+    if q.IsDerived() or not q.GetCategory():
+        return
+    db = UnitDatabase.GetSingleton()
+    for c in sorted(db.IterCategories()):
+        if c != q.GetCategory() and db.GetCategoryQuantityType(c) == q.GetQuantityType():
+            try:
+                sib = x.CreateCopy(unit=q.GetUnit(), category=c)
+                2.0 / sib, sib * 2.0, 2.0 // sib if False else None
+            except ZeroDivisionError:
+                pass
+            return
 
 
 def _k(cfg, V, n):
@@ -121,6 +161,8 @@ def run(cfg, V):
     import numpy
 
     x, xs = _mk(cfg, V)
+    if cfg["n"] != 0 and cfg["k"] in ("sym", "int"):
+        _sibling_prelude(x)
     k, ks = _k(cfg, V, len(xs))
     op = cfg["op"]
     r = {"k*x": lambda: k * x, "x*k": lambda: x * k, "x/k": lambda: x / k, "x//k": lambda: x // k, "x+k": lambda: x + k, "k+x": lambda: k + x,
